@@ -13,13 +13,23 @@ import json, os
 import vlib
 
 
-def gen_cfg(tier, name="IngestGen"):
+def gen_cfg(tier, name="IngestGen", sorter=False):
     d = vlib.spec_copy()
-    fn = "%s.%s.cfg" % (name, tier)
+    fn = "%s.%s%s.cfg" % (name, tier, ".sorter" if sorter else "")
+    if sorter:
+        rems = 'Rems = {{}, {"f0"}, {"f1"}, {"v"}, {"f0", "f1"}, {"f0", "v"}, {"f1", "v"}, {"f0", "f1", "v"}}'
+        if tier == "quick":
+            consts = 'B = 2\n N = 3\n Shapes = {"n", "a", "b", "ab", "ba"}\n Runs = {0, 1, 2}\n Pads = {0, 254}\n ' + rems
+        else:
+            consts = 'B = 2\n N = 4\n Shapes = {"n", "a", "b", "ab", "ba"}\n Runs = {0, 1, 2}\n Pads = {0, 254, 255}\n ' + rems
+        with open(os.path.join(d, fn), "w") as f:
+            f.write("SPECIFICATION Spec\nCONSTANTS %s\nINVARIANTS Conforms RunIndep\nCHECK_DEADLOCK FALSE\n" % consts)
+        return fn
     if tier == "quick":
         consts = 'B = 2\n N = 4\n Shapes = {"n", "a", "b", "ba"}\n Runs = {0, 1, 2}\n Pads = {0, 254}'
     else:
         consts = 'B = 2\n N = 5\n Shapes = {"n", "a", "b", "ab", "ba"}\n Runs = {0, 1, 2}\n Pads = {0, 252, 253, 254, 255}'
+    consts += '\n Rems = {{}}'
     with open(os.path.join(d, fn), "w") as f:
         f.write("SPECIFICATION Spec\nCONSTANTS %s\nINVARIANTS Conforms RunIndep\nCHECK_DEADLOCK FALSE\n" % consts)
     return fn
